@@ -14,8 +14,19 @@ EXPLANATION = (
 )
 
 
+def _colour_box(cr):
+    from bounded import pipeline
+    from bounded.contract_enum import run_contract_enum
+    from contracts import c12
+    pipeline.ensure_repo()
+    args = c12.arg_sets(cr.tier)
+    cr.bounded_check(run_contract_enum, "plan_wire_colors-box", c12.plan_colors, args,
+                     f"{len(args)} edge sets over 3 producers x 2 consumers x 2 signal names x merge / no merge, with and without a locked colour: "
+                     "a colouring reported conflict-free separates competing producers (contract evaluated on the real function)")
+
+
 def run(tier):
     progs = gen.c12_scope(tier)
     return run_e2e_property("C12", tier, EXPLANATION, "DESIGN §4 C12",
                             [("e2e-interleavings", progs, "7 pairs of independent computations x order-preserving interleavings")],
-                            contract_modules=["contracts.c08", "contracts.c13", "contracts.c10"])
+                            contract_modules=["contracts.c08", "contracts.c13", "contracts.c10"], extra=_colour_box)
